@@ -6,10 +6,10 @@ CHECK = {
              "allocation, inside host atomic read-modify-writes; per-thread budgets on the hot ones) and "
              "every pthread mutex lock/unlock (interposed); ALL schedules with <= B preemptions (quick 1, "
              "thorough 2) for every assignment of 3 events to the streams that uses >= 2 streams, x "
-             "{recorder+diagnostics, calorimeter+diagnostics}; oracle = serial single-stream results. "
+             "{recorder+diagnostics, calorimeter+diagnostics with charge-partitioned initialisation, recorder with track re-indexing by particle type}; oracle = serial single-stream results. "
              "part tsan: every assignment of 3 events to 2 streams (8) and to 3 streams (27), plus one "
-             "event per stream for 4, 8 and 16 streams, x two scoring variants (recorder + diagnostics; "
-             "SimpleCalo + diagnostics), each repeated with free-running threads that construct their "
+             "event per stream for 4, 8 and 16 streams, x three variants (recorder + diagnostics; "
+             "SimpleCalo + diagnostics + init_charge; recorder + reindex_particle_type), each repeated with free-running threads that construct their "
              "Steppers concurrently on one shared CoreParams, under ThreadSanitizer. "
              "non-trivial = a distinct (variant, stream count, assignment)."),
     "assumptions": [
